@@ -75,7 +75,7 @@ Progress(w)  == \/ Mkdir(w) \/ TryOpen(w) \/ BodyCall(w) \/ RawWrite(w) \/ EndBo
 BodyError(w) == Do(Ev(w, "bodyerr", "ok", 0, 0))
 \* the caller uses the same writer object for another write of the same destination
 Reenter(w)   == w \in Reusers /\ wr[w].round < MaxRounds /\ Do(Ev(w, "reenter", "ok", 0, 0))
-Crash(w)     == Do(Ev(w, "crash", "ok", 0, 0))
+Crash(w)     == ~wr[w].ret /\ Do(Ev(w, "crash", "ok", 0, 0))
 Fault(w)     == \/ (wr[w].pc = "idle" /\ Do(Ev(w, "mkdir", "fault", 0, 0)))
                 \/ (wr[w].pc = "open" /\ \E k \in Picks(w) : Do(Ev(w, "open", "fault", 0, k)))
                 \/ \E n \in (IF AnySplit THEN 1..(wr[w].acc - wr[w].raw) ELSE {wr[w].acc - wr[w].raw}) :
